@@ -15,7 +15,7 @@ THEOREMS = ["Mesa.Devs." + t for t in (
     "C14_drop_kills_every_sharer", "C14_weakref_dead_iff_callable_dropped", "C14_run_until_aborted", "C14_run_next_aborted", "C14_raising_event_never_rerun", "C14_resume_after_exception",
     "C14_life_core_reachable", "C14_life_idle_is_pristine", "C14_life_refused_unchanged", "C14_life_run_refused_iff",
     "C14_life_setup_refused_iff", "C14_life_setup_starts_pristine")]
-COUNTS = {"quick": 600, "thorough": 200000}
+COUNTS = {"quick": 650, "thorough": 216000}
 TRUSTED = [
     "heapq: no longer assumed — Model/Heap.lean transcribes Lib/heapq.py (heappush/heappop/_siftdown/_siftup), Proofs/Heap.lean proves it a priority queue for any strict weak order, Proofs/DevsHeap.lean proves the model's sorted list a sound abstraction of the heap array, and every check compares the transcription's array layout with CPython's heapq (the C accelerator _heapq is what actually runs); trusted: that EventList reaches its list only through heappush / heappop / iteration (read off the source)",
     "CPython weakref: a callable dies exactly when the program drops its last strong reference (refcounting); a callable that drops itself while it runs is kept alive by the running call only (it is dead when the call returns)",
@@ -36,11 +36,21 @@ RULE = ("random scenarios over both simulator classes: <=5 event programs (neste
 
 
 def generate(rng, tier, count):
+    # the lifecycle stream comes last and draws from a generator of its own (a copy of `rng`'s state), so the scenarios of the
+    # other streams are the ones they were before it was added
+    n_life = count // 13
+    yield from _generate(rng, count - n_life)
+    import random as _random
+    R2 = _random.Random()
+    R2.setstate(rng.getstate())
+    for _ in range(n_life):
+        yield D.gen_lifecycle(R2)
+
+
+def _generate(rng, count):
     for i in range(count):
         k = rng.random()
-        if k < 0.08:
-            yield D.gen_lifecycle(rng)
-        elif k < 0.15:
+        if k < 0.15:
             yield D.gen_decimal(rng)
         elif k < 0.27:
             yield D.gen_peek_heavy(rng)
